@@ -78,11 +78,15 @@ def http_lines(da, rng: random.Random, tier_: str) -> list[dict[str, Any]]:
               dict(start=395, interval=100, count=0, duration=50, ts=100, version=0),       # several per segment
               dict(start=400, interval=800, count=3, duration=10, ts=100, version=1),       # exactly on boundaries
               dict(start=1000, interval=1500, count=2, duration=10, ts=240, version=0),
-              dict(start=7, interval=333, count=7, duration=100, ts=90, version=0)]
+              dict(start=7, interval=333, count=7, duration=100, ts=90, version=0),
+              # event timescales that do not divide the 90 kHz SCTE-35 clock (kept small: PTS products must fit TLC's integers)
+              dict(start=3, interval=28, count=0, duration=5, ts=7, version=0),
+              dict(start=64, interval=256, count=6, duration=100, ts=64, version=1),
+              dict(start=50, interval=404, count=0, duration=33, ts=101, version=0)]
     if tier_ == 'thorough':
         for _ in range(30):
             scheds.append(dict(start=rng.randrange(0, 3000), interval=rng.choice([1, 50, 99, 400, 401, 1000, 4000, 9999]),
-                               count=rng.choice([0, 0, 1, 2, 9]), duration=rng.randrange(1, 500), ts=rng.choice([1, 10, 100, 240, 1000, 90000]),
+                               count=rng.choice([0, 0, 1, 2, 9]), duration=rng.randrange(1, 500), ts=rng.choice([1, 10, 100, 240, 1000, 90000, 7, 64, 101, 512]),
                                version=rng.choice([0, 1])))
     da.clock.set(datetime.datetime(2024, 3, 5, 12, 0, 0, tzinfo=datetime.timezone.utc))
     for kind in ('ping', 'scte35'):
